@@ -305,16 +305,6 @@ func (g *gen) step() bool {
 					}
 				}
 				if evicted {
-					if r.cfg.Pods[p].Kind == "frac" {
-						// a failed placement attempt of the caller leaves other (or no) GPU groups on the task
-						add(2, func() {
-							var gs []string
-							if g.rng.Intn(2) == 0 {
-								gs = []string{r.cfg.Groups[g.rng.Intn(len(r.cfg.Groups))]}
-							}
-							r.Step(Label{N: "Scratch", P: p, G: gs})
-						})
-					}
 					add(3, func() { r.Step(Label{N: "Unevict", P: p}) })
 					// back onto its own node / GPU: Pipeline turns into Unevict
 					home := ""
